@@ -5,6 +5,9 @@ import glob
 import json
 import os
 import subprocess
+import sys
+sys.path.insert(0, os.path.dirname(os.path.abspath(__file__)))
+import runner
 
 VERIF = os.path.dirname(os.path.dirname(os.path.abspath(__file__)))
 
@@ -61,6 +64,7 @@ def main():
         pid = p["id"]
         if pid in claimed and pid not in NA_FIXED:
             cat, text, note, tech = TEXT.get(pid, PLACEHOLDER)
+            cat = runner.property_level(runner.load_registry(), pid)
             checks.append(dict(
                 property_id=pid,
                 quick_cmd="./check %s quick" % pid,
